@@ -1,0 +1,5 @@
+//go:build !verif
+
+package disk
+
+func verifYield(point string, key string) {}
